@@ -41,7 +41,46 @@ def c13(run):
                         "bounded exhaustiveness: depth %d over the reph alphabet" % depth]
 
 
-PROPS = {"C12": c12, "C13": c13}
+def c14(run):
+    run.rule = ("TLC builds every word of up to N syllables from the grammar (onsets: single consonants, conjuncts via hasanta / ro-fola / "
+                "zo-fola / a conjunct key; all ten vowel signs incl. both second halves of AU; chandrabindu; independent vowel, punctuation, "
+                "digit) x 16 helper settings, runs the typewriter-order key sequence through the machine with the option on and the Unicode-order "
+                "sequence with it off (product construction, invariant OldOrderEquiv + WaitingSign); every maximal word is typed into two real "
+                "contexts and the pre-edit texts are compared after every whole syllable.  Non-trivial = every replayed word pair.")
+    if run.quick():
+        n, rich = 2, "FALSE"
+    else:
+        n, rich = 2, "TRUE"
+    tlc, s = run_tlc_replay(run, "MC_OldKar", "MC_OldKar.tla",
+                            dict(spec="Spec", constants={"MaxSyl": n, "Rich": rich},
+                                 invariants=["OldOrderEquiv", "WaitingSign", "Emit"]),
+                            "C14", workers=8, threads=8)
+    run.add(tlc, s)
+    run.assumptions += ["only grammar-generated words are compared; behaviour of old-order typing on ill-formed key sequences is descriptive",
+                        "bounded: words of <= %d syllables, onset set %s" % (n, "rich" if rich == "TRUE" else "base")]
+
+
+def c04(run):
+    run.rule = ("TLC enumerates the complete space 65536 codes x 11 modifier patterns (0..7, 0x80, 0xFD, 0xFF) x numpad on/off x 2 layouts "
+                "(bundled Probhat, synthetic with multi-code-point / empty / missing entries) as initial states of MC_Layout, checks "
+                "shift- and high-bit-insensitivity, numpad gating and 'only published codes emit', and emits the sparse table of non-empty "
+                "expectations; the harness presses EVERY point of the same space on the real engine (helpers and suggestions off) and compares "
+                "pre-edit text, emptiness and session flag with the table; unassigned keys are also pressed after one prior key.  "
+                "Non-trivial = points whose expected value is non-empty.")
+    os.environ["VERIF_GEN"] = os.path.join(stages.WORK, "gen")
+    tlc, s = run_tlc_replay(run, "MC_Layout", "MC_Layout.tla",
+                            dict(spec="Spec", invariants=["ShiftInsensitive", "HighBitsInsensitive", "OnlyPublished", "NumpadGating",
+                                                          "Reaches", "Emit"]),
+                            "C04", workers=8, threads=2)
+    run.add(tlc, s)
+    run.extra["exhaustive"] = True
+    if s["notes"].get("layout_table_rows", 0) < 1000:
+        raise ToolError("MC_Layout emitted only %s table rows" % s["notes"].get("layout_table_rows"))
+    run.assumptions += ["the VC_* name -> layout entry naming convention transcribed in bin/gen.py from riti.h's names",
+                        "layout files: bundled Probhat.json and the synthetic layout derived from it"]
+
+
+PROPS = {"C04": c04, "C12": c12, "C13": c13, "C14": c14}
 
 
 def replay_file(run, path):
